@@ -168,8 +168,11 @@ class Spec:
         else:
             self.grid_traces = self.nil * self.nxl
             self.ntr = self.ntr_field if self.post_021 else self.grid_traces
-        self.footer0 = self.data0 + DISK * self.ndb
-        self.stored = [row[0] for row in self.table if row[2] == row[0] and row[1] == 0]
+        # files older than the published header layout carry no size fields: derive them
+        self.legacy = self.ndb == 0
+        self.ndb_eff = self.expected_ndb() if self.legacy else self.ndb
+        self.footer0 = self.data0 + DISK * self.ndb_eff
+        self.stored = [row[0] for row in self.table if row[2] == row[0] and row[1] == 0 and row[0] != 0]
 
     # geometry -------------------------------------------------------------------------------
     @property
@@ -253,8 +256,10 @@ class Spec:
 
     def field_source(self):
         """key -> ('const', v) | ('array', stored_key)"""
-        out = {}
+        out = {k: ('const', 0) for k in KEYS}
         for key, const, dup in self.table:
+            if key == 0:
+                continue                      # legacy files: empty table
             if dup == key and const == 0:
                 out[key] = ('array', key)
             elif dup != 0 and const == 0:
